@@ -28,7 +28,18 @@ import random
 
 import repex_tie as T
 
+from props import c03_audit as A
+from props import c03_lazy as Z
 from props import c03_micro as M
+
+
+_BYREF = []
+
+
+def _runner_by_reference():
+    if not _BYREF:
+        _BYREF.append(A.runner_enqueues_reference())
+    return _BYREF[0]
 
 
 def predicates(ctx, sim, label):
@@ -72,6 +83,24 @@ def predicates(ctx, sim, label):
         for h in held:
             if h[3] != f"worker{h[0]}":
                 ctx.fail("C03:folder-not-own", f"pin {h[0]} got {h[3]}", rep)
+            # the pin is a worker index (it selects the folder, the engine cells and runner.wmdrun[pin])
+            if isinstance(h[0], bool) or not isinstance(h[0], int) or not 0 <= h[0] < sim.workers:
+                ctx.fail("C03:pin-not-a-worker-index", f"a job in flight has pin {h[0]!r} with {sim.workers} worker(s)", rep)
+            ex = h[6] if len(h) > 6 else None
+            if ex is not None:
+                if any(p != h[0] for p in ex["pins"]):
+                    ctx.fail("C03:folder-not-own", f"job of pin {h[0]!r} carries picked entries with pins {ex['pins']}", rep)
+                wm = sim.cfg["runner"].get("wmdrun", False)
+                if wm:
+                    want = wm[h[0]] if isinstance(h[0], int) and 0 <= h[0] < len(wm) else None
+                    if any(c != want for c in ex["wmdrun"]):
+                        ctx.fail("C03:worker-command-not-own", f"job of pin {h[0]!r} runs with mdrun command(s) {ex['wmdrun']}, "
+                                 f"runner.wmdrun[{h[0]}] is {want!r}", rep)
+                elif any(c is not None for c in ex["wmdrun"]):
+                    ctx.fail("C03:worker-command-not-own", f"no runner.wmdrun configured but the job carries {ex['wmdrun']}", rep)
+        cmds = [c for h in held if len(h) > 6 and h[6] is not None for c in set(h[6]["wmdrun"]) if c is not None]
+        if len(set(cmds)) != len(cmds):
+            ctx.fail("C03:worker-command-shared", f"two jobs in flight run with the same per-worker mdrun command: {cmds}", rep)
         inst = [(k, i) for h in held for ed in h[2].values() for k, i in ed.items()]
         per_job = [set((k, i) for ed in h[2].values() for k, i in ed.items()) for h in held]
         allinst = [x for s in per_job for x in s]
@@ -181,6 +210,11 @@ def make_sim(ctx, q, workers, rng, image, orig_cwd=None):
         sim.rich_init = True    # initial paths valid far beyond their own ensemble: off-diagonal picks at once → sort_trajstate swaps
     M.install(sim)      # sub-step recorder on this instance (swap / lock / unlock / _trajs writes)
     sim.treat_k = {}
+    if q["engmap"] == "wmd":
+        # per-worker mdrun commands (GROMACS: pinned cores / GPU ids): picked[ens]["wmdrun"] = runner.wmdrun[pin]
+        sim.cfg["runner"]["wmdrun"] = [f"gmx mdrun -pin on -pinoffset {4 * k} -gpu_id {k}" for k in range(workers)]
+    if q["engmap"] == "wmd0":
+        sim.cfg["runner"]["wmdrun"] = []       # falsy: the branch is skipped
     if q["engmap"] == "own0" and q["n_ens"] >= 3:
         # heterogeneous engines: [0-] runs on an engine of its own (exactly ONE instance, whatever the workers),
         # the other ensembles share a second engine name
@@ -191,6 +225,11 @@ def make_sim(ctx, q, workers, rng, image, orig_cwd=None):
         sim.lines[1] = "occ " + T.lst([len(sim.st.engine_occ[k]) for k in sim.eng_names])
         sim.lines[2] = f"enseng {q['n_ens']} " + " ".join(T.lst([sim.eng_names.index(e) for e in ee]) for ee in ens_engs)
     return sim
+
+
+def _extras(md):
+    """per picked ensemble: the mdrun command of the worker (runner.wmdrun[pin]) and the pin written into the entry"""
+    return {"wmdrun": [dd.get("wmdrun") for dd in md["picked"].values()], "pins": [dd.get("pin") for dd in md["picked"].values()]}
 
 
 def _job_view(md):
@@ -256,7 +295,7 @@ def drive(sim, q, rng, stop_after, image, weights):
             dirs = sorted({os.path.realpath(dd["exe_dir"]) for dd in md["picked"].values() if "exe_dir" in dd})
             held.append((md["pin"], [(e, dd["pn_old"]) for e, dd in md["picked"].items()],
                          {e: dict(dd["eng_idx"]) for e, dd in md["picked"].items()}, os.path.basename(md["w_folder"]),
-                         objs, dirs))
+                         objs, dirs, _extras(md)))
         snaps.append((tag, d, held))
 
     def prep(md):
@@ -315,7 +354,7 @@ def drive(sim, q, rng, stop_after, image, weights):
                 sim.rec.end(len(sim.lines) - 1)
                 sim.treat_k[len(sim.lines) - 1] = kidx
             snap("treat")
-            if stop_after is not None and sim.st.cstep >= stop_after:
+            if stop_after is not None and 0 <= stop_after <= sim.st.cstep:
                 sim.stopped_by_harness = True
                 sim.image = T.read_image(sim.tmp)
                 sim.weights_by_pn = {pn: v["weights"] for pn, v in sim.st.traj_data.items()}
@@ -325,13 +364,21 @@ def drive(sim, q, rng, stop_after, image, weights):
                 inflight.append(md)
                 snap("prep")
             yield
+        if stop_after is not None and stop_after < 0:
+            # the run FINISHED (loop() wrote the last restart file, workers-1 jobs still in flight): it is continued with more steps
+            sim.image = T.read_image(sim.tmp)
+            sim.weights_by_pn = {pn: v["weights"] for pn, v in sim.st.traj_data.items()}
     except Exception as e:  # noqa: BLE001
         error = e
     sim.error = error
     sim.inflight_end = inflight
 
 
-def drive_sched(sim, q, rng):
+class _Killed(Exception):
+    """the process of the real scheduler() is killed by the check (restart chains of the real-scheduler families)"""
+
+
+def drive_sched(sim, q, rng, stop_after=None, image=None, weights=None):
     """one history driven by the REAL `infretis.scheduler.scheduler(config)`: its two loops, its `if future:`, its
     resubmission rule and its deepcopy per worker run as they are; `setup_internal` hands it this Sim's REPEX_state
     (behind a recording proxy), `setup_runner` a runner that 'pickles' (deep-copies) every submitted md_items and a
@@ -347,7 +394,8 @@ def drive_sched(sim, q, rng):
         for md in inflight:
             dirs = sorted({os.path.realpath(dd["exe_dir"]) for dd in md["picked"].values() if "exe_dir" in dd})
             held.append((md["pin"], [(e, dd["pn_old"]) for e, dd in md["picked"].items()],
-                         {e: dict(dd["eng_idx"]) for e, dd in md["picked"].items()}, os.path.basename(md["w_folder"]), None, dirs))
+                         {e: dict(dd["eng_idx"]) for e, dd in md["picked"].items()}, os.path.basename(md["w_folder"]), None, dirs,
+                         _extras(md)))
         snaps.append((tag, d, held))
 
     class Fut:
@@ -364,6 +412,13 @@ def drive_sched(sim, q, rng):
         def stop(self):
             pass
 
+    lazy = None
+    if q.get("runner"):
+        # the hand-over as the real aiorunner does it: the REFERENCE is queued, the copy is made when a worker takes it
+        lazy = Z.LazyRunner(sim, rng, q["runner"], by_reference=_runner_by_reference())
+        sim.lazy = lazy
+        Z.install_mid_hook(sim, lazy)
+
     class Futures:
         def __init__(self):
             self.l = []
@@ -376,7 +431,17 @@ def drive_sched(sim, q, rng):
         def as_completed(self):
             if not self.l:
                 return None
-            kidx = rng.randrange(len(self.l))
+            if lazy is not None:
+                lazy.take_point("as-completed")
+                if not lazy.running:
+                    lazy.take_point("as-completed", force=1)       # a job completes only after a worker took it
+                cand = [i for i, f in enumerate(self.l) if lazy.is_running(f.entry)]
+                if not cand:
+                    raise RuntimeError("as_completed(): no unit is running in a worker")
+                kidx = rng.choice(cand)
+                lazy.complete(self.l[kidx].entry)
+            else:
+                kidx = rng.randrange(len(self.l))
             f = self.l.pop(kidx)
             inflight.pop(kidx)
             pending["k"] = kidx
@@ -396,12 +461,19 @@ def drive_sched(sim, q, rng):
 
         def prep_md_items(self, md):
             locks_before = [bool(x) for x in sim.st._locks]
+            if lazy is not None:
+                lazy.before_prep(md, sim.st.ensembles)
             sim.rec.begin("prep", list(inflight), None)
+            ok = False
             try:
-                return sim.op_prep(md)
+                out = sim.op_prep(md)
+                ok = True
+                return out
             finally:
                 sim.rec.end(len(sim.lines) - 1)
                 _check_draws(sim, locks_before, getattr(sim, "draws_by_op", {}).get(len(sim.lines) - 1, []), len(sim.lines) - 1)
+                if lazy is not None:
+                    lazy.after_prep(md, ok)
 
         def treat_output(self, md):
             status = "ACC" if rng.random() < q["acc"] else "REJ"
@@ -413,17 +485,34 @@ def drive_sched(sim, q, rng):
                 sim.rec.end(len(sim.lines) - 1)
                 sim.treat_k[len(sim.lines) - 1] = pending.get("k")
             snap("treat")
+            if stop_after is not None and 0 <= stop_after <= sim.st.cstep:
+                # the process dies right after treat_output wrote the restart file (jobs in flight stay on record)
+                sim.stopped_by_harness = True
+                sim.image = T.read_image(sim.tmp)
+                sim.weights_by_pn = {pn: v["weights"] for pn, v in sim.st.traj_data.items()}
+                raise _Killed()
             return md
 
     base = {"mc_moves": sim.st.mc_moves, "interfaces": sim.st.interfaces, "cap": None}
     o_int, o_run = S.setup_internal, S.setup_runner
     error = None
     try:
-        M.load_real(sim) if not q["wf"] else sim.load_initial()
+        if not q["wf"]:
+            M.load_real(sim, image, weights)
+        elif image is None:
+            sim.load_initial()
+        else:
+            sim.load_initial([T.FakePath(pn, weights[pn]) for pn in image["active"]],
+                             {int(k): [float(x) for x in v] for k, v in image["frac"].items()})
         snap("loaded")
         S.setup_internal = lambda config: (base, Proxy())
-        S.setup_runner = lambda state: (Runner(), Futures())
+        S.setup_runner = lambda state: ((lazy if lazy is not None else Runner()), Futures())
         S.scheduler(sim.cfg)
+        if stop_after is not None and stop_after < 0:
+            sim.image = T.read_image(sim.tmp)
+            sim.weights_by_pn = {pn: v["weights"] for pn, v in sim.st.traj_data.items()}
+    except _Killed:
+        pass
     except Exception as e:  # noqa: BLE001
         error = e
     finally:
@@ -436,7 +525,7 @@ def run_segment(ctx, q, workers, rng, stop_after, image, weights):
     sim = make_sim(ctx, q, workers, rng, image)
     sim.error = None
     if q["sched"]:
-        drive_sched(sim, q, rng)
+        drive_sched(sim, q, rng, stop_after, image, weights)
     else:
         for _ in drive(sim, q, rng, stop_after, image, weights):
             pass
@@ -445,18 +534,19 @@ def run_segment(ctx, q, workers, rng, stop_after, image, weights):
 
 
 def norm(params):
-    """(n_ens, workers, steps, seed, wf, eng_types, acc_p[, with_model, restarts, screen, probe, engines, wseq, engmap, alias, sched])
-    wseq: workers of the restarted segments (default: unchanged); sched: the history is driven by the REAL scheduler()"""
-    p = list(params) + [True, [], 0, False, False, [], "", False, False][max(0, len(params) - 7):]
+    """(n_ens, workers, steps, seed, wf, eng_types, acc_p[, with_model, restarts, screen, probe, engines, wseq, engmap, alias, sched, runner])
+    wseq: workers of the restarted segments (default: unchanged); sched: the history is driven by the REAL scheduler();
+    runner ("" | "late" | "eager" | "random", sched only): the runner keeps the submitted REFERENCE and copies when a worker takes the unit"""
+    p = list(params) + [True, [], 0, False, False, [], "", False, False, ""][max(0, len(params) - 7):]
     return dict(n_ens=p[0], workers=p[1], steps=p[2], seed=p[3], wf=p[4], et=p[5], acc=p[6], with_model=bool(p[7]),
                 restarts=[int(x) for x in p[8]], screen=int(p[9]), probe=bool(p[10]), engines=bool(p[11]),
-                wseq=[int(x) for x in p[12]], engmap=str(p[13]), alias=bool(p[14]), sched=bool(p[15]))
+                wseq=[int(x) for x in p[12]], engmap=str(p[13]), alias=bool(p[14]), sched=bool(p[15]), runner=str(p[16]))
 
 
 def label_of(q, ctx):
     return (f"n_ens={q['n_ens']} workers={q['workers']} steps={q['steps']} seed={q['seed']} wf={q['wf']} eng_types={q['et']} "
             f"acc_p={q['acc']} restarts={q['restarts']} screen={q['screen']} probe={q['probe']} real_engines={q['engines']} "
-            f"wseq={q['wseq']} engmap={q['engmap']} alias={q['alias']} sched={q['sched']} ctxseed={ctx.seed}")
+            f"wseq={q['wseq']} engmap={q['engmap']} alias={q['alias']} sched={q['sched']}" + (f" runner={q['runner']}" if q['runner'] else "") + f" ctxseed={ctx.seed}")
 
 
 def judge(ctx, q, sims, label, with_model, outs, family):
@@ -487,6 +577,14 @@ def judge(ctx, q, sims, label, with_model, outs, family):
             ctx.fail("C03:state-unreadable", f"sub-steps: {type(e).__name__}: {e}", {"history": lab, "params": getattr(sim, "params", None), "ctxseed": ctx.seed})
         for what in getattr(sim, "alias_faults", [])[:3]:
             ctx.fail("C03:md-items-aliased", what, {"history": lab, "params": getattr(sim, "params", None), "ctxseed": ctx.seed})
+        lz = getattr(sim, "lazy", None)
+        if lz is not None:
+            ctx.hit("lazy_runner_takes", lz.ntake)
+            ctx.hit("lazy_runner_takes_after_a_later_submission", lz.late_takes)
+            ctx.hit("lazy_runner_takes_inside_prep_or_treat", lz.mid_takes)
+            ctx.count(lz.ntake, family="lazy-runner-takes")
+            for (sig, what) in lz.faults:
+                ctx.fail(sig, what, {"history": lab, "params": getattr(sim, "params", None), "ctxseed": ctx.seed})
         if with_model:
             outs.append((sim, lab))
 
@@ -500,13 +598,18 @@ def one(ctx, params, with_model, outs):
     rng = random.Random(label)
     sims, image, weights = [], None, None
     wseq = [q["workers"]] + (q["wseq"] + [q["wseq"][-1] if q["wseq"] else q["workers"]] * len(q["restarts"]))[:len(q["restarts"])]
+    steps = q["steps"]
     for k, stop in enumerate(list(q["restarts"]) + [None]):
-        sim = run_segment(ctx, q, wseq[k], rng, stop, image, weights)
+        # a negative entry -m: the segment runs to its END, the next one continues the finished run with m more steps
+        sim = run_segment(ctx, dict(q, steps=steps), wseq[k], rng, stop, image, weights)
         sim.params = list(params)
         sims.append(sim)
         if stop is None or sim.error is not None or sim.image is None:
             break
         image, weights = sim.image, sim.weights_by_pn
+        if stop < 0:
+            steps += -stop
+            ctx.hit("finished_runs_continued", 1)
     family = "real-scheduler" if q["sched"] else (
         "engines" if q["engines"] else ("restart" if q["restarts"] else ("alias" if q["alias"] else "plain")))
     judge(ctx, q, sims, label, with_model, outs, family)
@@ -555,7 +658,10 @@ def run(ctx):
                 "boundary runs (steps <, =, > workers; maximal workers; [0-] on an engine of its own); md_items aliasing probes; two "
                 "samplers interleaved in one process; histories on the REAL engine instances "
                 "(def_globals → create_engines, turtlemd); histories driven by the REAL scheduler() (setup_internal / setup_runner "
-                "replaced by a recording proxy state and a deep-copying runner, completion order drawn by the check); "
+                "replaced by a recording proxy state and a deep-copying runner, completion order drawn by the check), also with a runner "
+                "that keeps the submitted REFERENCE and copies at take points drawn among all the real queue allows (late / eager / random, "
+                "also inside prep_md_items / treat_output) — judged on what the workers RECEIVE; output.screen in {0,1,5}; runner.wmdrun "
+                "lists; finished runs continued with more steps; the Monte-Carlo branch of inf_retis directly; "
                 "every op also observed at SUB-STEP granularity (a snapshot after every write to _locks/_trajs/state inside "
                 "treat_output / prep_md_items) and compared with the model's trace; every history also replayed event by event "
                 "through the model's sysStep; load through the REAL load_paths (sh moves); direct cases for create_engines "
@@ -627,6 +733,47 @@ def run(ctx):
         steps = rng.choice([1, w, w + 1, rng.randint(6, 24)])
         plans.append((n_ens, w, steps, rng.randint(0, 9), i % 3 == 2, rng.randint(1, 2), rng.choice([0.3, 0.7, 0.95]), n_ens <= 5,
                       [], 0, False, False, [], "", False, True))
+    # output.screen = 5 (printing on every fifth step only: print_pick / print_shooted / print_state read the cache), with
+    # and without restarts; per-worker mdrun commands (runner.wmdrun, also the empty list); finished runs that are continued
+    for i in range(8 if ctx.quick else 48):
+        n_ens = rng.randint(3, 6)
+        w = rng.randint(2, n_ens - 1)
+        steps = rng.randint(11, 24)
+        stops = [] if i % 2 else [rng.randint(2, steps - w - 1)]
+        plans.append((n_ens, w, steps, rng.randint(0, 9), i % 4 == 1, rng.randint(1, 2), rng.choice([0.3, 0.7, 0.95]), n_ens <= 5,
+                      stops, 5, i % 4 == 2, False, [], "", False, i % 4 == 3))
+    for i in range(6 if ctx.quick else 36):
+        n_ens = rng.randint(3, 6)
+        w = rng.randint(2, n_ens - 1)
+        steps = rng.randint(8, 20)
+        plans.append((n_ens, w, steps, rng.randint(0, 9), i % 2 == 1, rng.randint(1, 2), 0.7, n_ens <= 5,
+                      [] if i % 3 else [rng.randint(1, steps - w - 1)], rng.choice([0, 1, 5]), False, False, [], "wmd" if i % 6 else "wmd0", False,
+                      i % 3 == 1))
+    for i in range(6 if ctx.quick else 36):
+        n_ens = rng.randint(3, 6)
+        w = rng.randint(2, n_ens - 1)
+        steps = rng.randint(w, 14)
+        chain = [-rng.randint(1, 8)] + ([] if i % 2 else [rng.choice([-rng.randint(1, 6), steps + 1])])
+        plans.append((n_ens, w, steps, rng.randint(0, 9), i % 2 == 1, rng.randint(1, 2), rng.choice([0.3, 0.7]), n_ens <= 5,
+                      chain, rng.choice([0, 1, 5]), False, False, [rng.choice([w, max(1, w - 1), min(n_ens - 1, w + 1)])], "", False))
+    # the REAL scheduler() with a runner that keeps the submitted REFERENCE and copies when a worker takes the unit (as the
+    # real aiorunner: enqueue now, pickle later): take points late / eager / drawn at random among all the queue allows
+    for i in range(15 if ctx.quick else 120):
+        n_ens = rng.randint(3, 6)
+        w = rng.randint(2, n_ens - 1)
+        steps = rng.choice([w, w + 1, rng.randint(6, 20), rng.randint(6, 20)])
+        plans.append((n_ens, w, steps, rng.randint(0, 9), i % 3 == 2, rng.randint(1, 2), rng.choice([0.3, 0.7, 0.95]), n_ens <= 5,
+                      [], rng.choice([0, 1, 5]), False, False, [], "", False, True, ("late", "random", "random", "eager", "random")[i % 5]))
+    # … the same across restarts: the process is killed after a treat_output, the REAL scheduler() re-issues the recorded jobs in its
+    # initiation loop (fresh copy of the template per worker) and the runner again copies late
+    for i in range(6 if ctx.quick else 48):
+        n_ens = rng.randint(4, 6)
+        w = rng.randint(2, n_ens - 1)
+        steps = rng.randint(8, 18)
+        stops = sorted(rng.sample(range(1, steps - w), rng.choice([1, 2]))) if i % 3 else [-rng.randint(2, 6)]
+        plans.append((n_ens, w, steps, rng.randint(0, 9), i % 2 == 1, rng.randint(1, 2), rng.choice([0.3, 0.7]), n_ens <= 5,
+                      stops, rng.choice([0, 1, 5]), False, False, [rng.choice([w, max(1, w - 1), min(n_ens - 1, w + 1)])], "wmd" if i % 2 else "",
+                      False, True, ("late", "random")[i % 2]))
     outs = []
     for p in plans:
         one(ctx, p, p[7] and ctx._driver_ok, outs)
@@ -643,6 +790,10 @@ def run(ctx):
             if M.compare_traces(ctx, sim, traces, label) == 0:
                 M.compare_events(ctx, sim, label)       # the same history through `sysStep` (one scheduler event per line)
     M.factory_cases(ctx)
+    A.mc_cases(ctx)
+    ctx.extra["real_aiorunner_queues_the_reference"] = _runner_by_reference()
+    import sys
+    A.classlevel_note(ctx, sys.modules[__name__])
     ctx.sample({"history": outs[0][1] if outs else "-", "first_ops": outs[0][0].lines[:10] if outs else []})
     if outs:
         s = outs[-1][0]
@@ -666,6 +817,23 @@ def run(ctx):
         "`state[ens,:] = valid` is observed on entry of the following unlock(); an exception inside an op ends its trace (compared as error kind)",
         "the pickling boundary of the process pool is emulated by copy.deepcopy of every submitted md_items (real-scheduler family); "
         "object identity of the ens dicts / md_items between jobs is tie-only (alias probes), the model's jobs are values",
+        "lazy-runner family: the real aiorunner is replaced by a synchronous runner that keeps the submitted REFERENCE and copies when "
+        "the schedule lets a worker take the unit (FIFO; take points: before/after the enqueue, at every sub-step event inside the "
+        "following prep_md_items / treat_output, forced at as_completed / stop). That the real aiorunner queues the reference is "
+        "probed on its `_add_work_to_queue` on every run (evidence: real_aiorunner_queues_the_reference; if it copies, the runner of "
+        "the check copies at submit too); its event-loop / feeder threads and the pickle itself are not executed here (C17). "
+        "The heap/queue model `Infretis.Repex.Submit` treats prep_md_items as two writes to the unit (drop the old job, hold the new "
+        "one); a unit is the tuple the model's Job carries (pin, folder, picked ensembles/paths/streams/engine indices) — other keys of "
+        "md_items are compared by the tie's content rendering only",
+        "blocks of more than 12 idle ensembles with unequal weights: inf_retis estimates the matrix by Monte Carlo (`random_prob`, "
+        "10 000 sweeps drawn on the SCHEDULER stream). Not modelled: the model's `prob` is the exact permanent ratio for every size, and "
+        "the theorems quantify over every outcome with positive EXACT probability; they cover the code there because the Monte-Carlo "
+        "support is contained in the exact support (visited states are permutations with non-zero weights) — judged directly on the "
+        "real function (support ⊆ idle × idle, ⊆ non-zero weights, ⊆ exact support), histories never reach that size (≤ 8 ensembles)",
+        "runner.wmdrun (per-worker mdrun command) is not in the model; tie-only predicates (own command per pin, pairwise distinct in flight)",
+        "every REPEX_state of a history gets its own traj_data dict and a fake path store (shared harness); the class-level "
+        "traj_data/pstore/ensembles/engine_occ attributes of the real class (shared by all samplers of one process unless rebound) are "
+        "only looked at by a recorded note (evidence: note_class_level_traj_data)",
         "select_shoot's resolution ENGINES[name][idx] is modelled as Factory.engineObj; the tie resolves the objects itself, select_shoot is not executed",
     ]
     ctx.assumptions += [a for a in new_assumptions if a not in ctx.assumptions]   # run() is re-entered on escalation
@@ -674,6 +842,12 @@ def run(ctx):
 def replay(ctx, obj):
     """re-run the recorded history (same parameters, same per-history PRNG) on the current code"""
     r = obj.get("replay", {})
+    if str(r.get("function", "")).startswith("inf_retis"):
+        ctx.seed = r.get("ctxseed", ctx.seed)
+        A.mc_one(ctx, int(r["n_ens"]), int(r["seed"]), int(r["reach"]), str(r["locks"]))
+        for f in ctx.fails:
+            print("still fails:", f["signature"], f["what"])
+        return 1 if ctx.fails else 0
     if not r.get("params"):
         print("no history parameters in this replay file:", r)
         return 1
